@@ -10,6 +10,7 @@ import (
 	"math/rand"
 	"os"
 	"path/filepath"
+	"time"
 
 	"github.com/els0r/goProbe/v4/pkg/goDB/encoder"
 	"github.com/els0r/goProbe/v4/pkg/goDB/encoder/encoders"
@@ -34,23 +35,17 @@ func init() {
 			"system liblz4/libzstd are not ASan-instrumented; ASan only polices the Go<->C boundary buffers",
 		},
 		NumCases: func(tier, variant string) int {
+			n := map[string]int{"default": 240, "nocgo": 240, "nolz4": 160, "nozstd": 160, "asan": 80, "race": 80}[variant]
 			if tier == "thorough" {
-				switch variant {
-				case "asan", "race":
-					return 1500
-				}
-				return 6000
+				n *= 20
 			}
-			switch variant {
-			case "asan", "race":
-				return 120
-			}
-			return 320
+			return stor.DevCases(n)
 		},
 		Variants: func(tier string) []string {
 			return []string{"default", "nocgo", "nolz4", "nozstd", "asan", "race"}
 		},
 		Run: run,
+		CaseTimeout: 10 * time.Minute,
 		// single-threaded workloads: keep the Go runtime of the 16 parallel children from fighting over the cores
 		Env: func(tier, variant string) []string { return []string{"GOMAXPROCS=2"} },
 		Require: []string{"calls_lz4", "calls_zstd", "calls_null", "calls_scratch_gpfile", "calls_scratch_too_small",
